@@ -681,6 +681,65 @@ pub fn props_history(cfg: &RandCfg, rng: &mut StdRng, r: &mut Recorder, clients:
     else { r.emit(json!({"op":"Snapshot","posts":posts})); }
 }
 
+/// Directed-random leaf reuse (C04 / C03): a member writes messages (honest ones and ones claiming somebody else's key) in
+/// epoch e, is removed, a newcomer is added and takes over the freed leaf; the old wrappers arrive late, while e is still
+/// inside the past-epoch windows. Authentication must be against the sender's credential of epoch e.
+pub fn leaf_history(cfg: &RandCfg, rng: &mut StdRng, r: &mut Recorder, clients: &[&str]) {
+    let mut w = World::new(cfg.mdk.clone());
+    for (i, c) in clients.iter().enumerate() {
+        let be = match cfg.backend.as_str() { "mixed" => if (i + cfg.seed as usize) % 2 == 0 { "mem" } else { "sql" }, x => x };
+        w.add_client(c, be);
+    }
+    r.emit(json!({"op":"Reset"}));
+    let g = "g1";
+    r.emit(w.op_create("c1", g, &["c2".to_string(), "c3".to_string()], &["c1".to_string()]));
+    let step = |w: &mut World, r: &mut Recorder, a: Value| -> Value { let v = exec_action(w, &a); r.emit(v.clone()); v };
+    let mut clock = 40u64;
+    let b = if rng.gen_bool(0.5) { "c2" } else { "c3" };
+    let stay = if b == "c2" { "c3" } else { "c2" };
+    // B's messages of epoch e: honest, claiming the newcomer's key, claiming a present member's key
+    let mut late: Vec<String> = vec![];
+    for _ in 0..rng.gen_range(1..4) {
+        clock += 1;
+        let v = match rng.gen_range(0..3) {
+            0 => step(&mut w, r, json!({"op":"Send","c":b,"g":g,"ts":clock,"rank":0,"mts":clock})),
+            1 => step(&mut w, r, json!({"op":"Forge","c":b,"g":g,"claimed":"c4","idclass":"none","ts":clock,"mts":clock})),
+            _ => step(&mut w, r, json!({"op":"Forge","c":b,"g":g,"claimed":stay,"idclass":"none","ts":clock,"mts":clock})),
+        };
+        if v["res"] == json!("Ok") { late.push(v["e"].as_str().unwrap().to_string()); }
+    }
+    // B is removed, the newcomer is added (and lands in the freed leaf), possibly with commits in between
+    clock += 1;
+    let rm = step(&mut w, r, json!({"op":"Commit","c":"c1","g":g,"kind":"remove","arg":[b],"ts":clock,"rank":1}));
+    if rm["res"] != json!("Ok") { return; }
+    step(&mut w, r, json!({"op":"Merge","c":"c1","g":g}));
+    step(&mut w, r, json!({"op":"Deliver","c":stay,"e":rm["e"],"ts":clock,"rank":0}));
+    if rng.gen_bool(0.5) { step(&mut w, r, json!({"op":"Deliver","c":b,"e":rm["e"],"ts":clock,"rank":0})); }
+    clock += 1;
+    let ad = step(&mut w, r, json!({"op":"Commit","c":"c1","g":g,"kind":"add","arg":["c4"],"ts":clock,"rank":2}));
+    if ad["res"] == json!("Ok") {
+        step(&mut w, r, json!({"op":"Merge","c":"c1","g":g}));
+        step(&mut w, r, json!({"op":"Deliver","c":stay,"e":ad["e"],"ts":clock,"rank":0}));
+        let wn = ad["welcomes"][0].as_str().unwrap().to_string();
+        step(&mut w, r, json!({"op":"Welcome","c":"c4","w":wn,"what":"process","fresh":false}));
+        step(&mut w, r, json!({"op":"Welcome","c":"c4","w":wn,"what":"accept","fresh":false}));
+    }
+    for _ in 0..rng.gen_range(0..3) {
+        clock += 1;
+        let v = step(&mut w, r, json!({"op":"Commit","c":"c1","g":g,"kind":"rename","arg":format!("n{clock}"),"ts":clock,"rank":3}));
+        if v["res"] == json!("Ok") {
+            step(&mut w, r, json!({"op":"Merge","c":"c1","g":g}));
+            for c in [stay, "c4"] { step(&mut w, r, json!({"op":"Deliver","c":c,"e":v["e"],"ts":clock,"rank":0})); }
+        }
+    }
+    // the old wrappers arrive late at everybody (twice)
+    for _ in 0..2 {
+        for e in &late { for c in ["c1", stay, "c4", b] { step(&mut w, r, json!({"op":"Deliver","c":c,"e":e,"ts":clock + 1,"rank":0})); } }
+    }
+    let posts: Vec<Value> = clients.iter().map(|c| json!({"c":c,"g":g,"post":w.project(c, g)})).collect();
+    r.emit(json!({"op":"Snapshot","posts":posts}));
+}
+
 pub fn run_random(cfg: &RandCfg, r: &mut Recorder) {
     let clients = ["c1", "c2", "c3", "c4"];
     let sql: Vec<&str> = match cfg.backend.as_str() {
@@ -694,6 +753,7 @@ pub fn run_random(cfg: &RandCfg, r: &mut Recorder) {
         if cfg.profile == "welcome" { welcome_history(cfg, &mut rng, r, &clients); }
         else if cfg.profile == "fork" { fork_history(cfg, &mut rng, r, &clients); }
         else if cfg.profile == "props" { props_history(cfg, &mut rng, r, &clients); }
+        else if cfg.profile == "leaf" { leaf_history(cfg, &mut rng, r, &clients); }
         else { random_history(cfg, &mut rng, r, &clients); }
     }
 }
